@@ -25,6 +25,10 @@ ALLOWED_AXIOMS = {"propext", "Classical.choice", "Quot.sound"}
 FORBIDDEN = re.compile(r"\bsorry\b|\badmit\b|^axiom |native_decide|bv_decide|implemented_by|\bunsafe |maxHeartbeats 0", re.M)
 
 
+class SkipCase(Exception):
+    """the case cannot be set up for a reason that is not the property's business (reported as a feature, never as a verdict)"""
+
+
 class Infra(Exception):
     """infrastructure fault (exit 2), never a verdict"""
 
